@@ -1082,6 +1082,40 @@ func (r *Result) resetRules(mk *Mock, f *Func, fl *flow, facts []methodFacts, ro
 	name := Abstract(f.Decl.Name.Name)
 	evs := fl.allEvents()
 	written := map[Path]int{}
+	// ResetCalls may delegate: while it holds no lock of its own (it acquires none), a call of the same mock's
+	// Reset<M>Calls clears what that function clears — which its own rules decide
+	acquires := false
+	for _, e := range evs {
+		if e.kind == evAcquire {
+			acquires = true
+		}
+	}
+	delegated := map[*ast.CallExpr]Path{}
+	if role == "reset-all" && !acquires {
+		for _, e := range evs {
+			if e.kind != evCall || e.call == nil {
+				continue
+			}
+			sel, ok := ast.Unparen(e.call.Fun).(*ast.SelectorExpr)
+			if !ok || len(e.call.Args) != 0 {
+				continue
+			}
+			if rid, ok := ast.Unparen(sel.X).(*ast.Ident); !ok || f.Decl.Recv == nil || len(f.Decl.Recv.List) != 1 || len(f.Decl.Recv.List[0].Names) != 1 || rid.Name != f.Decl.Recv.List[0].Names[0].Name {
+				continue
+			}
+			if rl, j := classify(sel.Sel.Name, mk.Info); rl == RoleReset && j >= 0 && j < len(facts) && facts[j].appendPath != "" {
+				has := false
+				for _, g := range mk.Funcs {
+					if g.Decl.Name.Name == sel.Sel.Name {
+						has = true
+					}
+				}
+				if has {
+					delegated[e.call] = facts[j].appendPath
+				}
+			}
+		}
+	}
 	for _, e := range evs {
 		switch e.kind {
 		case evWrite:
@@ -1092,6 +1126,10 @@ func (r *Result) resetRules(mk *Mock, f *Func, fl *flow, facts []methodFacts, ro
 		case evCallback:
 			r.add("K-CALLBACK/other-callers", role, nodePos(e.node), false, "%s invokes a configured function", name)
 		case evCall:
+			if p, ok := delegated[e.call]; ok {
+				written[p]++
+				continue
+			}
 			r.add("K-FLOW/calls", role, nodePos(e.node), false, "%s calls %s", name, Abstract(e.detail))
 		}
 	}
